@@ -361,11 +361,11 @@ pub fn format_family(max_n: usize, stride: usize) -> Vec<(Facts, String)> {
                         what.push_str("replacement without obsolete flag");
                     }
                     _ => {
-                        let names = ["", "x", "\u{e9}", "a: b"];
+                        let names = ["", "obsolete x", "\u{e9}", "a: b"];
                         for (i, t) in f.terms.iter_mut().enumerate() {
                             t.name = names[i % names.len()].to_string();
                         }
-                        what.push_str("names \"\", x, é, a: b");
+                        what.push_str("names \"\", obsolete x, é, a: b");
                     }
                 }
                 let patterns: Vec<Option<u32>> = if flags == 4 {
